@@ -96,6 +96,8 @@ class Explorer:
         idx = index_iter if index_iter is not None else _count()
 
         def tasks():
+            for scn in corpus(self.prop):
+                yield (self.execute, scn)
             for i in idx:
                 scn = self.gen(common.run_seed(self.seed, i, self.prop), i)
                 if scn is None:
@@ -169,6 +171,26 @@ class Explorer:
         self.pool.close()
         cleanup_scratch()
         return r.finish()
+
+
+def corpus(prop):
+    """Regression scenarios kept under /verif/corpus/<ID>/ (minimised replays of repaired defects and of
+    seeded changes): they are executed first in every run, before the seeded exploration."""
+    d = os.path.join(common.VERIF, "corpus", prop)
+    out = []
+    try:
+        names = sorted(os.listdir(d))
+    except OSError:
+        return out
+    for n in names:
+        if n.endswith(".json"):
+            try:
+                with open(os.path.join(d, n)) as f:
+                    rp = json.load(f)
+                out.append(rp["scenario"] if "scenario" in rp else rp)
+            except (OSError, ValueError, KeyError):
+                pass
+    return out
 
 
 def _count():
